@@ -1,0 +1,108 @@
+//go:build verif
+
+package log
+
+import (
+	"bytes"
+	"os"
+	"reflect"
+	"sync"
+	"time"
+)
+
+// Verification hooks, compiled only with the build tag "verif". A nil hook is a
+// no-op; the verification harness installs functions before starting goroutines.
+var (
+	// VerifNow replaces the wall clock read by the rolling file appender.
+	VerifNow func(t time.Time) time.Time
+	// VerifRoll is called at numbered points of RollingFileAppender.Write/rotate.
+	VerifRoll func(c *RollingFileAppender, point int)
+	// VerifBuf is called when a layout buffer is taken (op 0) or pooled (op 1).
+	VerifBuf func(op int, b *bytes.Buffer)
+	// VerifEvt is called when an event is taken (op 0) or pooled (op 1).
+	VerifEvt func(op int, e *Event)
+	// VerifAsync is called at numbered points of AsyncLogger.
+	VerifAsync func(c *AsyncLogger, point int)
+)
+
+func verifNow(t time.Time) time.Time {
+	if f := VerifNow; f != nil {
+		return f(t)
+	}
+	return t
+}
+
+func verifRoll(c *RollingFileAppender, point int) {
+	if f := VerifRoll; f != nil {
+		f(c, point)
+	}
+}
+
+func verifBuf(op int, b *bytes.Buffer) {
+	if f := VerifBuf; f != nil {
+		f(op, b)
+	}
+}
+
+func verifEvt(op int, e *Event) {
+	if f := VerifEvt; f != nil {
+		f(op, e)
+	}
+}
+
+func verifAsync(c *AsyncLogger, point int) {
+	if f := VerifAsync; f != nil {
+		f(c, point)
+	}
+}
+
+// VerifReset forgets all registered tags and logger handles, the live
+// configuration (without stopping anything) and the injected properties.
+func VerifReset() {
+	tagRegistry = map[string]*Tag{}
+	loggerMap = map[string]*LoggerWrapper{}
+	global.init = false
+	global.loggers = nil
+	global.appenders = nil
+	enableCaller = true
+	fastCaller = false
+	BufferCap.Store(10 * 1024)
+	frameCache = sync.Map{}
+}
+
+// VerifClearExpired runs the retention scan of the appender synchronously.
+func VerifClearExpired(c *RollingFileAppender) { c.clearExpiredFiles() }
+
+// VerifRollingState reports the appender's current/previous file names and interval marker.
+func VerifRollingState(c *RollingFileAppender) (cur, old string, marker int64) {
+	name := func(f *os.File) string {
+		if f == nil {
+			return ""
+		}
+		return f.Name()
+	}
+	return name(c.file.Load()), name(c.oldFile.Load()), c.currTime.Load()
+}
+
+// VerifPlugins returns the plugin registry: type -> name -> struct type.
+func VerifPlugins() map[PluginType]map[string]reflect.Type {
+	m := map[PluginType]map[string]reflect.Type{}
+	for t, ps := range pluginRegistry {
+		m[t] = map[string]reflect.Type{}
+		for n, p := range ps {
+			m[t][n] = p.Class
+		}
+	}
+	return m
+}
+
+// VerifTagLogger returns the logger currently bound to the tag (nil = built-in).
+func VerifTagLogger(t *Tag) Logger { return t.logger }
+
+// VerifHandleLogger returns the logger currently bound to the handle.
+func VerifHandleLogger(w *LoggerWrapper) Logger { return w.logger }
+
+// VerifGlobal reports whether a configuration is live and how many loggers/appenders it holds.
+func VerifGlobal() (live bool, loggers, appenders int) {
+	return global.init, len(global.loggers), len(global.appenders)
+}
